@@ -15,6 +15,8 @@ CONFIGS = {
     ('heap n=6 dispatch/complete', {'kind': 'heap', 'n': 6, 'ops': ['D', 'C'], 'max_out': 6}, 9),
     ('heap n=4 full alphabet', {'kind': 'heap', 'n': 4, 'extra': 1, 'ops': ['D', 'C', 'Down', 'Up', 'Join', 'Leave'],
                                 'max_out': 4, 'max_down': 2, 'max_notifications': 2}, 6),
+    ('heap n=3 members down, up and leaving in any order', {'kind': 'heap', 'n': 3, 'ops': ['D', 'C', 'Down', 'Up', 'Leave'], 'max_out': 2,
+                                                            'max_down': 2, 'max_notifications': 1}, 9),
     ('heap n=3 members down and up in any order', {'kind': 'heap', 'n': 3, 'ops': ['D', 'C', 'Down', 'Up'], 'max_out': 3, 'max_down': 2}, 10),
     ('aperture n=3 min_size=2', {'kind': 'aperture', 'n': 3, 'min_size': 2, 'ops': ['D', 'C', 'Down', 'Up', 'Adv', 'Leave'],
                                  'max_out': 4, 'max_down': 1, 'advs': [1, 3], 'max_notifications': 1}, 6),
